@@ -284,6 +284,10 @@ class ConcEnv(object):
         self.checks = 0
 
     def bytes(self, name, n):
+        if name in self.used and name not in self.inputs:
+            v = bytes.fromhex(self.used[name])
+            if len(v) == n:
+                return v
         if name in self.inputs:
             v = bytes.fromhex(self.inputs[name])
             if len(v) != n:
@@ -297,6 +301,8 @@ class ConcEnv(object):
         return bytearray(self.bytes(name, n))
 
     def int(self, name, bits, signed=False):
+        if name in self.used and name not in self.inputs:
+            return self.used[name]          # the same name always denotes the same value
         if name in self.inputs:
             v = int(self.inputs[name])
         else:
